@@ -137,6 +137,11 @@ pub mod log_specification {
     //@   props C02
     //@   req[build.pre.finite] self.map().dom().finite()
     //@   ens[LogSpecBuilder::build.post] sorted_desc_len(r.mfs()) && entries_match(self.map(), r.mfs()) && r.tf() is None
+    //@ fn src/log_specification.rs impl LogSpecBuilder / fn build_with_textfilter
+    //@   ret r
+    //@   props C02
+    //@   req[build_with_textfilter.pre.finite] self.map().dom().finite()
+    //@   ens[LogSpecBuilder::build_with_textfilter.post] sorted_desc_len(r.mfs()) && entries_match(self.map(), r.mfs()) && (tf is None <==> r.tf() is None) && (tf is Some ==> *r.tf()->Some_0 == tf->Some_0)
     }
 }
 }
